@@ -349,6 +349,9 @@ Inductive case :=
      (* nreq requests queued in hydra.SummonSwamp's per-name slot, ncancelled contexts cancelled; hung: a
         request was still asleep in the queue after every summon in flight had finished; later_hung: all of
         them returned but a later request for the same name did not (the slot protocol is Conc/Summon.v) *)
+| KCloseFault (faulted close_hung summon_hung : bool)
+     (* swamp.Close() while every growing write of the final flush fails (file size limit 0): Close must
+        return, and a later request for the name must not be left waiting for that close *)
 | KInflight (dop iop : nat) (op_hung destroy_hung third_hung : bool) (final : Z).
      (* request R2 holds a vigil; request R1 empties the swamp (auto-destroy) and waits in Destroy's drain;
         R2 then performs operation iop under its vigil and ceases; R3 summons the closing name.
@@ -385,6 +388,7 @@ Definition check_case (k : case) : N :=
            end
   | KPoll _ hung => if hung then 6%N else 0%N
   | KSummon _ _ hung later => if hung then 9%N else if later then 11%N else 0%N
+  | KCloseFault _ ch sh => if ch then 14%N else if sh then 13%N else 0%N
   | KInflight _ _ oh dh th final =>
       if oh then 10%N else if dh then 4%N else if th then 12%N
       else if (final <? 0)%Z then 5%N else if Z.eqb final 0 then 0%N else 3%N
